@@ -123,6 +123,18 @@ Theorem C16_send_noreset_refuted :
 Proof. exact noreset_refuted. Qed.
 Print Assumptions C16_send_noreset_refuted.
 
+(* ---- the close frame of a failure reaches the wire also when the application has synchronous / chopped writes queued
+   (protocol.py sendData / _send): it is queued behind them, the connection becomes CLOSING, and the drain writes every
+   queued entry and then the close frame -- the guard of the drain is the generated [sq_write] (state != CLOSED).  Once the
+   connection is CLOSED (dropped) nothing queued is written. ---- *)
+Theorem C16_close_frame_reaches_wire : forall w close_frame,
+  fail_and_drain w close_frame = mkWq [] (wq_wire w ++ wq_q w ++ [close_frame]).
+Proof. exact close_frame_reaches_wire. Qed.
+Print Assumptions C16_close_frame_reaches_wire.
+Theorem C16_closed_discards_queue : forall q wire, drain (length q) CLOSED (mkWq q wire) = mkWq [] wire.
+Proof. exact drain_closed. Qed.
+Print Assumptions C16_closed_discards_queue.
+
 (* ---- decompression cap.  Full-strength statement [decompress_cap_statement]: for every inflater obeying the zlib
    stream laws, every stream and segmentation, the messages delivered under a cap are a prefix of the true messages
    (never truncated / altered, later ones unaffected).  It is FALSE of the faithful model of compress_deflate.py:
@@ -172,3 +184,6 @@ Example C16_example_send_apis :
   outs = [Wrote true [0; 1] true; Refused; Refused; Wrote true [0; 2] true] /\
   peer_read N toy_inflate 0 outs = [Some ([1], true); Some ([2], true)].
 Proof. vm_compute. split; reflexivity. Qed.
+Example C16_example_queue :
+  fail_and_drain (mkWq [[1]; [2]] [[0]]) [136; 2; 3; 241] = mkWq [] [[0]; [1]; [2]; [136; 2; 3; 241]].
+Proof. reflexivity. Qed.
